@@ -9,8 +9,9 @@ axes is read back (Agg backend) and compared with what the statement requires.
 
 Drawing history is an axis of its own: a "history" case draws a chart A, discards it, and then draws and judges a
 chart B of tables of the SAME shape (the same chart twice; the same tables with the other hide_poles value, from the
-same arrays / the same algorithm object; another table of that shape; the same tables scanned with another order
-step), for order steps 1, 2, 3. Each history case is executed in a child process forked from a process that has not
+same arrays / the same algorithm object; the same tables drawn first WITH a frequency window that leaves poles outside
+and then without one; another table of that shape; the same tables scanned with another order step), for order steps
+1, 2, 3. Each history case is executed in a child process forked from a process that has not
 drawn any chart, so its verdict is that of the replay file in a fresh process and no case sees another case's state.
 """
 import itertools
@@ -24,13 +25,15 @@ from mc.core import Tally
 
 ID = "C20"
 TECHNIQUE = ("bounded-exhaustive enumeration of pole/label tables (all assignments of NaN/stable/unstable to the cells) x the "
-             "full lattice of drawing options, through the plot functions and the algorithm classes' plot methods; artist "
-             "data read back from the returned axes and compared with a reference written from the statement; the order "
+             "full lattice of drawing options (including where the chart is drawn: own figure, or axes supplied by the caller that are / are "
+             "not pyplot's current ones, or belong to a figure pyplot does not manage), through the plot functions and the algorithm "
+             "classes' plot methods; artist data read back from the returned resp. supplied axes and compared with a reference written from the statement; the order "
              "coordinate of a marker is bound behaviourally to SSI_mpe / pLSCF_mpe (extraction at int(y) must return that pole)")
 LEVEL_TEXT = ("every table of the stated shapes over the 3-symbol cell alphabet and every option combination stated in the bounds "
-              "is drawn with the real code and every marker / error bar / curve of the returned axes is judged")
-RULE = ("one case = (route, table, hide_poles, freqlim, covariance) resp. (route, singular-value array, nSv, freqlim), one figure "
-        "each, or a history case (route, table, hide_poles, covariance, order step, kind of prior drawing): two figures drawn one "
+              "is drawn with the real code and every marker / error bar / curve of the returned axes (of the supplied axes where the caller "
+              "supplies them) is judged, and every other axes of the caller / of pyplot must carry no artist")
+RULE = ("one case = (route, table, hide_poles, freqlim, covariance, where the chart is drawn, call form) resp. (route, singular-value "
+        "array, nSv, freqlim, where the chart is drawn, call form), one chart each, or a history case (route, table, hide_poles, covariance, order step, kind of prior drawing): two figures drawn one "
         "after the other in one fresh process, the second one judged; a table or history case is non-trivial if the table holds at least one stable, one unstable and one NaN cell (every branch "
         "of the marker selection is exercised in the same figure); a CMIF case is non-trivial if at least two curves are "
         "requested and the first singular value peaks at a different line than another requested one; distinct by the case tuple")
@@ -48,6 +51,17 @@ ASSUMPTIONS = [
     "history cases judge the SECOND drawing only; the first one is discarded unseen (it is judged as a single drawing elsewhere in the lattice); an "
     "exception raised by the first drawing is reported",
     "ordmin = 0 except for a sub-lattice with ordmin 1 and 2 (labels of lower orders are 0 there, all retained poles are still drawn; the order axis of the stabilisation diagram starts at ordmin, so markers of lower orders are drawn below the view)",
+    "where the chart is drawn: plot.stab_plot and plot.CMIF_plot document fig= / ax= ('an existing axes object to plot on'; the selection "
+    "dialog uses them with the axes of a Figure it embeds itself). With supplied axes the chart judged is what the SUPPLIED axes carry, the "
+    "returned axes must be the supplied object, and no other axes the caller made or pyplot manages may carry a line, collection, patch, "
+    "image, text, container or legend afterwards (an empty figure that pyplot creates on the side is not reported). Call forms: fig= and "
+    "ax=, or ax= alone (the returned figure is then None; fig= alone raises AttributeError on the unchanged tree and is not part of the space). "
+    "plot.cluster_plot and the class methods take no axes: for them the only variation is that a two-panel figure of the caller exists "
+    "while they make their own figure",
+    "tables handed to a plot function / stored in the result of an algorithm object are compared byte-wise before and after every drawing; a "
+    "change alone is recorded as an outcome and not reported (the statement speaks of what is drawn): it is reported in the history cases "
+    "that draw the same arrays / the same algorithm object a second time, when that second chart does not show the ORIGINAL tables (the "
+    "reference of the second drawing is always built from the original tables)",
     "error bars: every bar must be centred (relative 1e-9) on a drawn marker and every drawn marker with a finite covariance must carry exactly one bar; bar lengths are not judged",
 ]
 
@@ -170,21 +184,149 @@ def has_cov(route):
     return route in ("stab", "ssi.stab", "ssidatms.stab")
 
 
-def make_drawer(route, Fn, Xi, Phi, Lab, cov, ordmin=0, step=1):
+# where the chart is drawn
+WHERES = ("own", "beside", "current", "left-of-two", "older-figure", "unmanaged")
+SUPPLIED = WHERES[2:]
+FORMS = ("fig+ax", "ax")
+WHERE_TEXT = {"own": "the function makes its own figure (fig=None, ax=None); no other figure exists",
+              "beside": "the function makes its own figure while a two-panel pyplot figure of the caller exists (its panels must stay empty)",
+              "current": "axes supplied by the caller that are pyplot's current axes (fig, ax = plt.subplots())",
+              "left-of-two": "the LEFT panel of plt.subplots(1, 2) supplied; pyplot's current axes are the right panel, which must stay empty",
+              "older-figure": "axes of a pyplot figure supplied after a newer pyplot figure was made; the newer axes are current and must stay empty",
+              "unmanaged": "axes of a matplotlib.figure.Figure that pyplot does not manage (the way the selection dialog embeds the chart)"}
+FORM_TEXT = {"fig+ax": "fig=<figure>, ax=<axes>", "ax": "ax=<axes> only"}
+
+
+def takes_axes(route):
+    """the plot functions with documented fig= / ax= arguments (cluster_plot and the class methods always make their own figure)"""
+    return route in ("stab", "cmif")
+
+
+def stage(where):
+    """The caller's figures before the library is called: (fig, ax) to be supplied (None, None = let the function make its own)
+    and the caller's other axes."""
+    import matplotlib.pyplot as plt
+
+    if where == "own":
+        return None, None, []
+    if where == "beside":
+        _f, (left, right) = plt.subplots(1, 2)
+        return None, None, [left, right]
+    if where == "current":
+        f, a = plt.subplots()
+        return f, a, []
+    if where == "left-of-two":
+        f, (left, right) = plt.subplots(1, 2)
+        return f, left, [right]
+    if where == "older-figure":
+        f, a = plt.subplots()
+        _g, b = plt.subplots()
+        return f, a, [b]
+    if where == "unmanaged":
+        from matplotlib.figure import Figure
+
+        f = Figure(figsize=(8, 6))
+        return f, f.add_subplot(111), []
+    raise ValueError(where)
+
+
+def supply_kw(where, form):
+    """-> (keyword arguments for the plot function, supplied axes or None, the caller's other axes)"""
+    fig_s, ax_s, others = stage(where)
+    if ax_s is None:
+        return {}, None, others
+    return ({"ax": ax_s} if form == "ax" else {"fig": fig_s, "ax": ax_s}), ax_s, others
+
+
+def other_axes(judged, staged):
+    """every axes the caller made or pyplot manages, except the judged ones"""
+    import matplotlib.pyplot as plt
+
+    seen, out = {id(judged)}, []
+    managed = [a for n in plt.get_fignums() for a in plt.figure(n).axes]
+    for a in list(staged) + managed:
+        if id(a) not in seen:
+            seen.add(id(a))
+            out.append(a)
+    return out
+
+
+def artists_on(ax):
+    n = {"lines": len(ax.lines), "collections": len(ax.collections), "patches": len(ax.patches), "images": len(ax.images),
+         "texts": len(ax.texts), "containers": len(ax.containers), "legend": int(ax.get_legend() is not None)}
+    return {k: v for k, v in n.items() if v}
+
+
+def judge_place(t, case, route, where, form, ax_ret, ax_s, staged, sfx="", pre=""):
+    """the returned axes are the supplied ones and no other axes carries an artist; -> (axes to judge, ok)"""
+    ok = True
+    judged = ax_ret if ax_s is None else ax_s
+    if ax_s is not None and ax_ret is not ax_s:
+        ok = False
+        t.violation(f"{NAME[route]}:returned-axes-not-the-supplied:axes={where}{sfx}",
+                    f"{pre}{NAME[route]}({FORM_TEXT[form]}) returned axes that are not the supplied ones ({WHERE_TEXT[where]})", case)
+    stray = [(i, artists_on(a)) for i, a in enumerate(other_axes(judged, staged))]
+    stray = [(i, n) for i, n in stray if n]
+    if stray:
+        ok = False
+        t.violation(f"{NAME[route]}:artists-on-other-axes:axes={where}{sfx}",
+                    f"{pre}{NAME[route]}: artists were drawn on axes other than the {'supplied' if ax_s is not None else 'returned'} ones "
+                    f"({WHERE_TEXT[where]}): {stray[:3]}", case)
+    elif where != "own":
+        t.outcomes["other-axes-stay-empty"] += 1
+    return judged, ok
+
+
+_RESULT_TABLES = ("Fn_poles", "Xi_poles", "Phi_poles", "Lab", "Fn_poles_cov", "Xi_poles_cov")
+
+
+def snapshot(draw):
+    """bytes of the tables handed to the plot function resp. stored in the result of the algorithm object"""
+    items = dict(draw.handed)
+    if draw.alg is not None:
+        for n in _RESULT_TABLES:
+            items["result." + n] = getattr(draw.alg.result, n, None)
+    return {k: (v.dtype.str, v.shape, v.tobytes()) for k, v in items.items() if isinstance(v, np.ndarray)}
+
+
+def changed_tables(before, draw):
+    now = snapshot(draw)
+    return sorted(k for k in before if now.get(k) != before[k])
+
+
+def make_drawer(route, Fn, Xi, Phi, Lab, cov, ordmin=0, step=1, where="own", form="fig+ax"):
     """draw(hide, freqlim) -> (fig, ax). Every call of the returned function hands the SAME array objects to the plot function,
-    resp. calls the plot method of the SAME algorithm object. With order step s the C columns are the orders 0, s, .., (C-1)*s."""
+    resp. calls the plot method of the SAME algorithm object. With order step s the C columns are the orders 0, s, .., (C-1)*s.
+    draw.handed: the arrays handed in; draw.alg: the algorithm object (class routes); draw.supplied: (supplied axes or None,
+    other axes of the caller) of the last call."""
     from pyoma2.functions import plot
 
+    if where in SUPPLIED and not takes_axes(route):
+        raise ValueError(f"{route} takes no axes")
     R, C = Fn.shape
+
+    def finish(call, handed, alg=None):
+        def draw(hide, freqlim):
+            kw, ax_s, others = supply_kw(where, form)
+            draw.supplied = (ax_s, others)
+            return call(hide, freqlim, **kw)
+
+        draw.handed, draw.alg, draw.supplied = handed, alg, (None, [])
+        return draw
+
     if route == "stab":
-        return lambda hide, freqlim: plot.stab_plot(Fn, Lab, step, (C - 1) * step, ordmin=ordmin, freqlim=freqlim, hide_poles=hide, Fn_cov=cov)
+        return finish(lambda hide, freqlim, **kw: plot.stab_plot(Fn, Lab, step, (C - 1) * step, ordmin=ordmin, freqlim=freqlim,
+                                                                 hide_poles=hide, Fn_cov=cov, **kw),
+                      {"Fn": Fn, "Lab": Lab, "Fn_cov": cov})
     if route == "cluster":
-        return lambda hide, freqlim: plot.cluster_plot(Fn, Xi, Lab, ordmin=ordmin, freqlim=freqlim, hide_poles=hide)
+        return finish(lambda hide, freqlim: plot.cluster_plot(Fn, Xi, Lab, ordmin=ordmin, freqlim=freqlim, hide_poles=hide),
+                      {"Fn": Fn, "Xi": Xi, "Lab": Lab})
     import pyoma2.algorithms as algs
     from pyoma2.algorithms.data.result import SSIResult, pLSCFResult
 
     fam, what = route.split(".")
     cls = getattr(algs, _CLS[fam])
+    handed = {"Fn": Fn, "Xi": Xi, "Phi": Phi, "Lab": Lab, "Fn_cov": cov}
     if fam in ("ssi", "ssidatms"):
         kw = {"step": step} if step != 1 else {}
         a = cls(name="a", br=3, ordmax=(C - 1) * step, ordmin=ordmin, **kw)
@@ -198,12 +340,8 @@ def make_drawer(route, Fn, Xi, Phi, Lab, cov, ordmin=0, step=1):
         a._set_data(np.zeros((10, 2)), 20.0)
         a.result = pLSCFResult(Fn_poles=Fn, Xi_poles=Xi, Phi_poles=Phi, Lab=Lab)
     if what == "stab":
-        return lambda hide, freqlim: a.plot_stab(freqlim=freqlim, hide_poles=hide)
-    return lambda hide, freqlim: a.plot_cluster(freqlim=freqlim, hide_poles=hide)
-
-
-def draw_table(route, Fn, Xi, Phi, Lab, cov, hide, freqlim, ordmin=0):
-    return make_drawer(route, Fn, Xi, Phi, Lab, cov, ordmin=ordmin, step=1)(hide, freqlim)
+        return finish(lambda hide, freqlim: a.plot_stab(freqlim=freqlim, hide_poles=hide), handed, a)
+    return finish(lambda hide, freqlim: a.plot_cluster(freqlim=freqlim, hide_poles=hide), handed, a)
 
 
 def admissible_order(route, x, y, Fn, Xi, Phi, cell, step=1):
@@ -362,6 +500,7 @@ def run_table_case(t, case):
 
     R, C, cellstr = case["R"], case["C"], case["cells"]
     route, hide, freqlim, with_cov = case["route"], case["hide"], case["freqlim"], case["cov"]
+    where, form = case.get("where", "own"), case.get("form", "fig+ax")
     freqlim = None if freqlim is None else tuple(freqlim)
     Fn, Xi, Phi, Lab, cov = build(R, C, cellstr, df=case.get("df", 0.1))
     om = case.get("ordmin", 0)
@@ -374,33 +513,53 @@ def run_table_case(t, case):
     t.states += 1
     t.evaluations += 1
     fig = None
+    plt.close("all")
+    sfx = "" if where == "own" else f":axes={where}"
+    pre = "" if where == "own" else f"[{WHERE_TEXT[where]}; {FORM_TEXT[form] if where in SUPPLIED else 'fig=None, ax=None'}] "
     try:
-        fig, ax = draw_table(route, Fn.copy(), Xi.copy(), Phi.copy(), Lab.copy(), None if cov is None else cov.copy(), hide, freqlim, om)
+        draw = make_drawer(route, Fn.copy(), Xi.copy(), Phi.copy(), Lab.copy(), None if cov is None else cov.copy(), om, 1, where, form)
+        before = snapshot(draw)
+        fig, ax = draw(hide, freqlim)
     except Exception as e:
         plt.close("all")
-        t.violation(f"raises:{type(e).__name__}:{NAME[route]}", f"{NAME[route]}(hide_poles={hide}, freqlim={freqlim}) raised {type(e).__name__}: {e}; table {R}x{C} cells={cellstr}", case)
+        t.violation(f"raises:{type(e).__name__}:{NAME[route]}{sfx}", f"{pre}{NAME[route]}(hide_poles={hide}, freqlim={freqlim}) raised {type(e).__name__}: {e}; table {R}x{C} cells={cellstr}", case)
         return
     try:
         t.transitions += 1
         t.validated += 1
-        marks, _ok = judge_table(t, case, route, Fn, Xi, Phi, Lab, cov, hide, freqlim, fig, ax)
+        ax_s, staged = draw.supplied
+        judged, ok_place = judge_place(t, case, route, where, form, ax, ax_s, staged, pre=pre)
+        marks, ok = judge_table(t, case, route, Fn, Xi, Phi, Lab, cov, hide, freqlim, fig, judged, sfx=sfx, pre=pre)
+        if ok and ok_place:
+            t.outcomes[f"axes={where}:agree"] += 1
+            if where in SUPPLIED:
+                t.outcomes[f"axes-supplied-as:{form}"] += 1
+                if not hide and (Lab != 1)[np.isfinite(Fn)].any():
+                    t.outcomes[f"axes={where}:unstable-markers-on-supplied-axes"] += 1
+        # the tables handed in / stored in the result after the drawing: not a statement of this property by itself (the history
+        # cases judge a second drawing of the same arrays / the same algorithm object against the ORIGINAL tables)
+        ch = changed_tables(before, draw)
+        t.outcomes["tables-changed-by-a-single-drawing(recorded, judged in the history cases)" if ch else "tables-unchanged-after-drawing"] += 1
         if set(cellstr) == set(SYM):
-            t.nontrivial.add((route, R, C, cellstr, hide, freqlim is not None, bool(with_cov)))
+            t.nontrivial.add((route, R, C, cellstr, hide, freqlim is not None, bool(with_cov)) + (() if where == "own" else (where, form)))
         if case.get("sample"):
             t.sample({"case": {k: v for k, v in case.items() if k != "sample"},
                       "stable_markers": marks["stable"], "unstable_markers": marks["unstable"]})
     finally:
-        plt.close(fig)
+        if fig is not None:
+            plt.close(fig)
         plt.close("all")
 
 
 # ---------------------------------------------------------------------------------------------
 # drawing history: chart A (discarded), then chart B of tables of the same shape (judged)
 STEPS = (1, 2, 3)
-PRIORS = ("same", "hide", "table", "step")
+PRIORS = ("same", "hide", "band", "table", "step")
 _ROT = str.maketrans("NSU", "SUN")          # another table of the same shape: every cell changes its symbol
 PRIOR_TEXT = {"same": "the same chart drawn before (same arrays / same algorithm object)",
               "hide": "the same tables drawn before with the other hide_poles value (same arrays / same algorithm object)",
+              "band": "the same tables drawn before WITH a frequency window that leaves poles outside (same arrays / same algorithm object); the "
+                      "judged drawing has no window and must show every pole of the original tables",
               "table": "another table of the same shape (every cell another symbol, other frequencies) drawn before with the same options",
               "step": "the same tables drawn before as scanned with another order step"}
 
@@ -410,16 +569,18 @@ def has_step(route):
 
 
 def prior_of(case):
-    """(cells, hide, step, df, shared) of the discarded first drawing"""
+    """(cells, hide, step, df, shared, freqlim) of the discarded first drawing"""
     cells, hide, step, df, p = case["cells"], case["hide"], case["step"], case["df"], case["prior"]
     if p == "same":
-        return cells, hide, step, df, True
+        return cells, hide, step, df, True, None
     if p == "hide":
-        return cells, not hide, step, df, True
+        return cells, not hide, step, df, True, None
+    if p == "band":
+        return cells, hide, step, df, True, LO_HI
     if p == "table":
-        return cells.translate(_ROT), hide, step, 2 * df, False
+        return cells.translate(_ROT), hide, step, 2 * df, False, None
     if p == "step":
-        return cells, hide, STEPS[(STEPS.index(step) + 1) % len(STEPS)], df, False
+        return cells, hide, STEPS[(STEPS.index(step) + 1) % len(STEPS)], df, False, None
     raise ValueError(p)
 
 
@@ -431,7 +592,7 @@ def run_history_case(t, case):
     Fn, Xi, Phi, Lab, cov = build(R, C, cellstr, df=case["df"])
     if not with_cov:
         cov = None
-    cells_a, hide_a, step_a, df_a, shared = prior_of(case)
+    cells_a, hide_a, step_a, df_a, shared, fl_a = prior_of(case)
     t.states += 1
     t.evaluations += 2
     cp = lambda v: None if v is None else v.copy()  # noqa: E731
@@ -445,9 +606,11 @@ def run_history_case(t, case):
         else:
             Fa, Xa, Pa, La, ca = build(R, C, cells_a, df=df_a)
             draw_a = make_drawer(route, Fa, Xa, Pa, La, ca if with_cov else None, 0, step_a)
-        fig_a, _ax_a = draw_a(hide_a, None)
+        before = snapshot(draw_b)
+        fig_a, _ax_a = draw_a(hide_a, fl_a)
         plt.close(fig_a)
         plt.close("all")
+        changed = changed_tables(before, draw_b)
         stage = "second"
         fig, ax = draw_b(hide, None)
     except Exception as e:
@@ -459,7 +622,16 @@ def run_history_case(t, case):
         t.transitions += 1
         t.validated += 1
         marks, ok = judge_table(t, case, route, Fn, Xi, Phi, Lab, cov, hide, None, fig, ax, step=step, sfx=":2nd-drawing", pre=pre)
+        if shared:
+            if changed and not ok:
+                t.violation(f"{NAME[route]}:tables-changed-by-first-drawing:2nd-drawing",
+                            f"{pre}{what}: the first drawing changed {changed} (the tables handed in / stored in the result are not byte-identical "
+                            f"to what they were), and the second drawing does not show the original tables; table {R}x{C} cells={cellstr}", case)
+            t.outcomes["history:tables-changed-by-first-drawing(second drawing right)" if changed and ok else
+                       ("history:tables-changed-by-first-drawing" if changed else "history:tables-unchanged-by-first-drawing")] += 1
         if ok:
+            if fl_a is not None and any(not inside(f, fl_a) for f in Fn[np.isfinite(Fn)]):
+                t.outcomes["history:first-window-left-poles-outside"] += 1
             t.outcomes[f"history:agree:{route}"] += 1
             t.outcomes[f"history:prior={prior}"] += 1
             t.outcomes["history:step>1" if step > 1 else "history:step=1"] += 1
@@ -509,6 +681,22 @@ def isolated(func, case):
 
 # ---------------------------------------------------------------------------------------------
 # CMIF
+class _Marked:
+    """the same tally; violation class keys get a suffix and messages a prefix (where the chart was drawn)"""
+
+    def __init__(self, t, sfx, pre):
+        self.__dict__["_t"], self.__dict__["_sfx"], self.__dict__["_pre"] = t, sfx, pre
+
+    def __getattr__(self, k):
+        return getattr(self._t, k)
+
+    def __setattr__(self, k, v):
+        setattr(self._t, k, v)
+
+    def violation(self, key, msg, case):
+        self._t.violation(key + self._sfx, self._pre + msg, case)
+
+
 LEVELS = {"a": (4.0, 1.0, 0.5, 0.2), "b": (1.0, 0.6, 0.3, 0.05), "c": (9.0, 0.7, 0.65, 0.1),
           # rank-deficient line: a (near-)null singular value is still drawn at its own decibel level (-inf for exactly zero)
           "d": (2.0, 0.5, 3e-17, 0.0)}
@@ -528,12 +716,20 @@ def run_cmif_case(t, case):
 
     nch, syms, nSv, route, freqlim = case["nch"], case["syms"], case["nSv"], case["route"], case["freqlim"]
     freqlim = None if freqlim is None else tuple(freqlim)
+    where, form = case.get("where", "own"), case.get("form", "fig+ax")
+    if where in SUPPLIED and not takes_axes(route):
+        raise ValueError(f"{route} takes no axes")
+    sfx = "" if where == "own" else f":axes={where}"
+    pre = "" if where == "own" else f"[{WHERE_TEXT[where]}; {FORM_TEXT[form] if where in SUPPLIED else 'fig=None, ax=None'}] "
     S, freq = build_sv(nch, syms)
     t.states += 1
     t.evaluations += 1
+    plt.close("all")
+    fig = None
     try:
+        kw, ax_s, staged = supply_kw(where, form)
         if route == "cmif":
-            fig, ax = plot.CMIF_plot(S.copy(), freq.copy(), freqlim=freqlim, nSv=nSv)
+            fig, ax = plot.CMIF_plot(S.copy(), freq.copy(), freqlim=freqlim, nSv=nSv, **kw)
         else:
             from pyoma2.algorithms import FDD
             from pyoma2.algorithms.data.result import FDDResult
@@ -544,16 +740,17 @@ def run_cmif_case(t, case):
             fig, ax = a.plot_CMIF(freqlim=freqlim, nSv=nSv)
     except Exception as e:
         plt.close("all")
-        t.violation(f"raises:{type(e).__name__}:{NAME[route]}", f"{NAME[route]}(nSv={nSv}) raised {type(e).__name__}: {e} for {nch} channels, lines {syms}", case)
+        t.violation(f"raises:{type(e).__name__}:{NAME[route]}{sfx}", f"{pre}{NAME[route]}(nSv={nSv}) raised {type(e).__name__}: {e} for {nch} channels, lines {syms}", case)
         return
     try:
         t.transitions += 1
         t.validated += 1
+        ax, ok = judge_place(t, case, route, where, form, ax, ax_s, staged, pre=pre)      # the supplied axes are the judged ones
         marks, bars, curves = read_axes(ax)
         n = nch if nSv == "all" else int(nSv)
         ref = S[0, 0, :].max()
         want = [10 * np.log10(S[k, k, :] / ref) for k in range(n)]
-        ok = True
+        t = _Marked(t, sfx, pre)
         if len(curves) != n:
             ok = False
             t.violation(f"{NAME[route]}:curve-count", f"{NAME[route]}: {len(curves)} curves drawn for nSv={nSv} on {nch} channels (required {n}); lines {syms}", case)
@@ -580,13 +777,18 @@ def run_cmif_case(t, case):
         if ok:
             t.outcomes[f"agree:{route}"] += 1
             t.outcomes["cmif:all" if nSv == "all" else "cmif:subset"] += 1
+            t.outcomes[f"axes={where}:agree"] += 1
+            if where in SUPPLIED:
+                t.outcomes[f"axes-supplied-as:{form}"] += 1
+                t.outcomes[f"axes={where}:curves-on-supplied-axes"] += 1
         pk0 = int(np.argmax(S[0, 0, :]))
         if n >= 2 and any(int(np.argmax(S[k, k, :])) != pk0 for k in range(1, n)):
-            t.nontrivial.add((route, nch, syms, str(nSv), freqlim is not None))
+            t.nontrivial.add((route, nch, syms, str(nSv), freqlim is not None) + (() if where == "own" else (where, form)))
         if case.get("sample"):
             t.sample({"case": {k: v for k, v in case.items() if k != "sample"}, "curves_dB": [np.round(c[:, 1], 3).tolist() for c in curves]})
     finally:
-        plt.close(fig)
+        if fig is not None:
+            plt.close(fig)
         plt.close("all")
 
 
@@ -598,24 +800,43 @@ def all_cells(R, C):
 def table_cases(thorough):
     cases = []
 
-    def add(R, C, cellsets, routes, hides=(True, False), freqlims=(None,), covs=(False,), df=0.1, ordmins=(0,)):
+    def add(R, C, cellsets, routes, hides=(True, False), freqlims=(None,), covs=(False,), df=0.1, ordmins=(0,), wheres=("own",),
+            forms=("fig+ax",)):
         for cells in cellsets:
             for route in routes:
                 for hide in hides:
                     for fl in freqlims:
                         for cv in (covs if has_cov(route) else (False,)):
                             for om in ordmins:
-                                c = {"kind": "table", "route": route, "R": R, "C": C, "cells": cells, "hide": hide,
-                                     "freqlim": fl, "cov": cv, "df": df}
-                                if om:
-                                    c["ordmin"] = om
-                                cases.append(c)
+                                for wh in wheres:
+                                    if wh in SUPPLIED and not takes_axes(route):
+                                        continue
+                                    for fm in (forms if wh in SUPPLIED else ("fig+ax",)):
+                                        c = {"kind": "table", "route": route, "R": R, "C": C, "cells": cells, "hide": hide,
+                                             "freqlim": fl, "cov": cv, "df": df}
+                                        if om:
+                                            c["ordmin"] = om
+                                        if wh != "own":
+                                            c["where"], c["form"] = wh, fm
+                                        cases.append(c)
 
     both = (None, LO_HI)
     cls_routes = ("ssi.stab", "ssi.cluster", "pl.stab", "pl.cluster")
     ms_routes = ("ssidatms.stab", "ssidatms.cluster", "plms.stab", "plms.cluster")
     pats = ["".join(p) for p in itertools.product(SYM, repeat=3)]
+    perms = ["".join(p) for p in itertools.permutations(SYM)]
+    all_routes = ("stab", "cluster") + cls_routes + ms_routes
     if not thorough:
+        # where the chart is drawn: every 2x2 table on every kind of supplied axes (the plot function that takes fig= / ax=), both
+        # hide_poles values; the window / covariance / call-form combination is rotated with the table index so that every
+        # (where, hide_poles, window, covariance, form) combination occurs; a covering set with everything crossed; 60 orders
+        for i, cells in enumerate(all_cells(2, 2)):
+            add(2, 2, [cells], ("stab",), freqlims=(both[i % 2],), covs=((i // 2) % 2 == 1,), wheres=SUPPLIED, forms=(FORMS[(i // 4) % 2],))
+        for i, p in enumerate(perms):
+            add(2, 3, [banded_cells(2, 3, p)], ("stab",), freqlims=both, covs=(False, True), wheres=SUPPLIED, forms=(FORMS[i % 2],))
+        add(3, 60, [banded_cells(3, 60, p) for p in perms[:2]], ("stab",), hides=(False,), covs=(True,), df=0.01, wheres=SUPPLIED)
+        # own figure while a two-panel figure of the caller exists: every route
+        add(2, 3, [banded_cells(2, 3, p) for p in perms], all_routes, covs=(True,), wheres=("beside",))
         add(2, 3, all_cells(2, 3), ("stab", "cluster"))
         add(2, 2, all_cells(2, 2), ("stab", "cluster") + cls_routes, freqlims=both, covs=(False, True))
         add(2, 3, all_cells(2, 3)[::23], ("stab", "cluster", "ssi.stab", "ssi.cluster", "pl.cluster"), ordmins=(1, 2))   # non-default ordmin
@@ -623,6 +844,12 @@ def table_cases(thorough):
         add(3, 4, cover34, ("stab", "cluster"))
         add(3, 60, [banded_cells(3, 60, p) for p in pats], ("stab", "cluster", "ssi.stab"), covs=(True,), df=0.01)
     else:
+        for i, cells in enumerate(all_cells(2, 3)):
+            add(2, 3, [cells], ("stab",), freqlims=both, covs=(False, True), wheres=SUPPLIED, forms=(FORMS[i % 2],))
+        add(3, 4, [banded_cells(3, 4, p) for p in pats] + single_cells(3, 4), ("stab",), freqlims=both, covs=(False, True), wheres=SUPPLIED)
+        for C in (20, 60):
+            add(3, C, [banded_cells(3, C, p) for p in perms], ("stab",), covs=(False, True), df=0.01, wheres=SUPPLIED, forms=FORMS)
+        add(2, 3, sorted(set(all_cells(2, 3)[::7] + [banded_cells(2, 3, p) for p in perms])), all_routes, freqlims=both, covs=(True,), wheres=("beside",))
         add(3, 3, all_cells(3, 3), ("stab", "cluster"))
         add(2, 4, all_cells(2, 4), ("stab",))
         add(2, 3, all_cells(2, 3), ("stab", "cluster") + cls_routes, freqlims=both, covs=(False, True))
@@ -680,6 +907,22 @@ def cmif_cases(thorough):
                 for nSv in ["all"] + list(range(1, nch)):
                     for route in ("cmif", "fdd.cmif"):
                         cases.append({"kind": "cmif", "route": route, "nch": nch, "syms": syms, "nSv": nSv, "freqlim": None})
+        # where the chart is drawn: supplied axes of every kind through plot.CMIF_plot; own figure beside a figure of the caller
+        allsyms = ["".join(p) for p in itertools.product("abc", repeat=L)]
+        sub = allsyms[::13 if thorough else 10]
+        if nch >= 3:
+            sub = sub + [("dcba" * L)[:L]]                      # with a rank-deficient line
+        for i, syms in enumerate(sub):
+            for nSv in ["all"] + list(range(1, nch)):
+                for fl in (None, (0.4, 1.2)):
+                    for wh in SUPPLIED:
+                        for fm in (FORMS if thorough else (FORMS[i % 2],)):
+                            cases.append({"kind": "cmif", "route": "cmif", "nch": nch, "syms": syms, "nSv": nSv, "freqlim": fl,
+                                          "where": wh, "form": fm})
+                    for route in ("cmif", "fdd.cmif"):
+                        if fl is None or thorough:
+                            cases.append({"kind": "cmif", "route": route, "nch": nch, "syms": syms, "nSv": nSv, "freqlim": fl,
+                                          "where": "beside", "form": "fig+ax"})
     return cases
 
 
@@ -753,10 +996,22 @@ def explore(ctx):
                            "banded family with " + ("20, 40, 60" if ctx.thorough else "60") + " orders"),
         "hide_poles": [True, False], "freqlim": [None, list(LO_HI)], "covariance_table": [None, "mixed small/large (|cov*Fn| below and above 0.5)"],
         "step": {"single drawings": 1, "history cases": list(STEPS)}, "ordmin": [0, 1, 2],
+        "where_the_chart_is_drawn": {
+            "values": WHERE_TEXT, "call_forms": FORM_TEXT,
+            "table_cases": {w: sum(1 for c in tc if c.get("where", "own") == w) for w in WHERES},
+            "cmif_cases": {w: sum(1 for c in cc if c.get("where", "own") == w) for w in WHERES},
+            "supplied_axes_routes": ["plot.stab_plot", "plot.CMIF_plot"],
+            "supplied_axes_tables": ("every 2x2 table x hide_poles x the four kinds of supplied axes (window / covariance / call form rotated with the "
+                                     "table index); 6 banded 2x3 tables x hide_poles x window x covariance x kind (call form alternating); banded 60-order tables"
+                                     if not ctx.thorough else
+                                     "every 2x3 table x hide_poles x window x covariance x the four kinds of supplied axes (call form rotated); the 3x4 "
+                                     "covering subset; banded 20- and 60-order tables x call form"),
+            "beside": "6 banded 2x3 tables (thorough: + every 7th 2x3 table, with and without window) x hide_poles through every table route; CMIF subset through both routes"},
         "history": {"what": "chart A drawn and discarded, then chart B of tables of the same shape drawn and judged, both in one child process forked "
                             "from a process that has not drawn any chart (one child per case)",
                     "prior_drawing": PRIOR_TEXT, "order_step": list(STEPS), "hide_poles": [True, False],
-                    "covariance_table": [None, "mixed"], "freqlim": [None],
+                    "covariance_table": [None, "mixed"], "freqlim": {"judged drawing": [None], "first drawing": [None, list(LO_HI)]},
+                    "tables_compared_bytewise_after_first_drawing": True,
                     "tables": {f"{R}x{C}": {"routes": sorted({c["route"] for c in hc if (c["R"], c["C"]) == (R, C)}),
                                             "steps": sorted({c["step"] for c in hc if (c["R"], c["C"]) == (R, C)}),
                                             "tables": len({c["cells"] for c in hc if (c["R"], c["C"]) == (R, C)})}
@@ -779,7 +1034,11 @@ def explore(ctx):
     ctx.require(*[f"agree:{r}" for r in routes], "stable-markers-drawn", "unstable-markers-drawn", "unstable-poles-hidden",
                 "window-cuts-poles", "errorbars-agree", "cmif:all", "cmif:subset")
     ctx.require(*[f"history:agree:{r}" for r in sorted({c["route"] for c in hc})], *[f"history:prior={p}" for p in PRIORS],
-                "history:step=1", "history:step>1", "history:same-algorithm-object", "history:marker-above-column-count")
+                "history:step=1", "history:step>1", "history:same-algorithm-object", "history:marker-above-column-count",
+                "history:first-window-left-poles-outside", "history:tables-unchanged-by-first-drawing")
+    ctx.require(*[f"axes={w}:agree" for w in WHERES], *[f"axes-supplied-as:{f}" for f in FORMS], "other-axes-stay-empty",
+                *[f"axes={w}:unstable-markers-on-supplied-axes" for w in SUPPLIED], *[f"axes={w}:curves-on-supplied-axes" for w in SUPPLIED],
+                "tables-unchanged-after-drawing")
 
 
 def replay(case):
